@@ -106,7 +106,11 @@ def random_program(rng, *, max_cleanups=4, kinds=RAISE_KINDS, p_raise=0.35, feat
         n = rng.randint(0, 3)
         for _ in range(n):
             r = rng.random()
-            if r < 0.45 and n_cleanups[0] < max_cleanups:
+            if r < 0.04 and "nested_cleanup" in feats:
+                # the very same callable with the same arguments registered twice, another cleanup in between
+                n_cleanups[0] += 1
+                acts += [["cleanup_dup", "dup"], ["cleanup", "c%d" % n_cleanups[0], []], ["cleanup_dup", "dup"]]
+            elif r < 0.45 and n_cleanups[0] < max_cleanups:
                 n_cleanups[0] += 1
                 acts.append(["cleanup", "c%d" % n_cleanups[0], cleanup_body(0)] + (["kw"] if rng.random() < 0.2 else []))
             elif r < 0.55 and "expect" in feats:
